@@ -90,12 +90,10 @@ Print Assumptions C12_first_rejected.
      transition log a prefix of the conversation;
    - an endpoint that has made all its transitions and called its last handler
      has handed exactly the peer's projection to its application.
-   PARTIAL: not proved is PROGRESS - that a state in which no label of the
-   composition is enabled has completed the conversation (deadlock freedom:
-   needs sendHeld -> SHeld, recvHeld -> LWaitMsg, pendS = sum of queued sizes,
-   RDecode -> rbuf > 0 and conservation of bytes between B's written messages,
-   the wire and A's read buffer).  The real two-engine runs of the harness
-   exercise it. *)
+   This theorem is the SAFETY half (kept under its round-2 name).  The PROGRESS
+   half - a state in which no label of the composition is enabled has completed
+   the conversation (deadlock freedom) - is proved below: C12_conforming
+   (safety /\ progress) and C12_conforming_terminates (no infinite schedule). *)
 Theorem C12_conforming_partial : forall sm s0 rqa rqb k conv,
   conforming sm s0 k conv ->
   forall ls s, crun sm s0 rqa rqb k conv (cinit sm s0) ls = Some s ->
@@ -217,4 +215,102 @@ Example C12_first_rejected_run :
   | Some s => wire_log (lg s) = [] /\ seg_log (lg s) = [] /\ err (fl s) = true /\ map m_id (rej_log (lg s)) = [1]
   | None => False
   end.
+Proof. vm_compute. repeat split; reflexivity. Qed.
+
+(* ---- two endpoints: safety AND progress ------------------------------------
+   (proofs: C12/ProgressInv.v, C12/Progress.v; Engine.v and Compose.v unchanged)
+   C12_conforming = C12_conforming_partial (SAFETY, every schedule) + PROGRESS:
+   a composed state reached by any schedule in which NO label of the
+   composition is enabled - no action of any loop of either engine, no segment
+   deliverable from either wire, no SendMessage of a caller (`cstep s x = None`
+   for every (side, label); the composition offers exactly the labels of the
+   environment assumed by C12_conforming_partial: no timeout, no external Stop,
+   no muxer death, handlers return nil, faithful codec, callers enqueue their
+   projections in order and respect the pending-send limit) - has COMPLETED the
+   conversation: both transition logs are the whole conversation and both
+   handler logs are the whole projections of the peer.  This holds
+   (a) when the callers have enqueued their whole projections, for every
+       constants record, and
+   (b) without that premise whenever the send queue has capacity > 0: Enq is a
+       label of the composition, so the callers are never blocked for ever
+       either (deadlock freedom of engines + callers).
+   Auxiliary invariants: sendHeld -> SHeld, recvHeld -> LWaitMsg, RDecode ->
+   rbuf > 0, pendR = sum of the accounted sizes = sizes of the messages between
+   admission and handler return, pendS = sum of the queued sizes (GInv, every
+   label list of one engine); an incomplete decode leaves fewer bytes than the
+   next message, batches and segment remainders are non-empty (XInv); bytes
+   handed to the muxer = bytes on the wire + read buffer + decoded messages,
+   no empty segment on the wire (DInv, every schedule of the composition). *)
+From V Require Import C12.ProgressInv C12.Progress.
+
+Theorem C12_conforming : forall sm s0 rqa rqb k conv,
+  conforming sm s0 k conv ->
+  forall ls s, crun sm s0 rqa rqb k conv (cinit sm s0) ls = Some s ->
+  (* safety *)
+  (healthy (ea s) /\ healthy (eb s) /\
+   prefix (hmsgs (ea s)) (projR sm RServer s0 conv) /\ prefix (hmsgs (eb s)) (projR sm RClient s0 conv) /\
+   prefix (map tmsg (tlog (lg (ea s)))) conv /\ prefix (map tmsg (tlog (lg (eb s)))) conv /\
+   prefix (wire_log (lg (ea s))) (projR sm RClient s0 conv) /\ prefix (wire_log (lg (eb s))) (projR sm RServer s0 conv) /\
+   (length (tlog (lg (ea s))) = length conv -> accepted_pending (lph (rc (ea s))) = [] ->
+      hmsgs (ea s) = projR sm RServer s0 conv) /\
+   (length (tlog (lg (eb s))) = length conv -> accepted_pending (lph (rc (eb s))) = [] ->
+      hmsgs (eb s) = projR sm RClient s0 conv)) /\
+  (* progress *)
+  ((forall x, cstep sm s0 rqa rqb k conv s x = None) ->
+   (enq_log (lg (ea s)) = projR sm RClient s0 conv /\ enq_log (lg (eb s)) = projR sm RServer s0 conv) \/
+   0 < c_sendqcap k ->
+   map tmsg (tlog (lg (ea s))) = conv /\ map tmsg (tlog (lg (eb s))) = conv /\
+   hmsgs (ea s) = projR sm RServer s0 conv /\ hmsgs (eb s) = projR sm RClient s0 conv).
+Proof.
+  intros sm s0 rqa rqb k conv HC ls s R. split.
+  - exact (C12_conforming_partial sm s0 rqa rqb k conv HC ls s R).
+  - intros Q [(EA & EB)|CAP].
+    + exact (progress sm s0 rqa rqb k conv HC ls s R Q EA EB).
+    + exact (progress_strong sm s0 rqa rqb k conv HC ls s R Q CAP).
+Qed.
+Print Assumptions C12_conforming.
+
+(* non-vacuity of the progress premise: the state reached by the chain-sync
+   schedule above is quiescent (no label of the composition is enabled) *)
+Example C12_conforming_quiescent :
+  match crun sm_chainsync_ntn 1 55 55 consts_gen cs_conv (cinit sm_chainsync_ntn 1) cs_sched with
+  | Some s => forall x, cstep sm_chainsync_ntn 1 55 55 consts_gen cs_conv s x = None
+  | None => False
+  end.
+Proof.
+  destruct (crun sm_chainsync_ntn 1 55 55 consts_gen cs_conv (cinit sm_chainsync_ntn 1) cs_sched) as [s|] eqn:E;
+    [|vm_compute in E; discriminate E].
+  vm_compute in E. injection E as <-.
+  intros [[|] l]; destruct l; try reflexivity; try (destruct r; reflexivity); try (destruct g; reflexivity).
+Qed.
+(* ... and a state in the middle of the conversation is not: after the client
+   has written its two pipelined requests the server's recvLoop can take its token *)
+Example C12_conforming_not_quiescent :
+  match crun sm_chainsync_ntn 1 55 55 consts_gen cs_conv (cinit sm_chainsync_ntn 1) (firstn 7 cs_sched) with
+  | Some s => cstep sm_chainsync_ntn 1 55 55 consts_gen cs_conv s (false, TakeRecvToken) <> None
+  | None => False
+  end.
+Proof. vm_compute. discriminate. Qed.
+
+(* ---- no infinite schedule (C12/Termination.v) -------------------------------
+   Every label of the composition costs at least one unit of an explicit
+   measure, so a schedule from the initial state has at most
+   sum over both projections of (3*len + 14) + 10 labels - for EVERY conversation
+   (conforming or not) and every queue capacity, provided
+   SegmentMaxPayloadLength > 0 (with 0 the model's segment loop spins for ever).
+   With C12_conforming: a schedule can be extended only finitely often, and
+   when it cannot be extended any more the conversation is complete - every
+   maximal schedule of the two engines and their callers ends in completion,
+   without any fairness assumption. *)
+From V Require Import C12.Termination.
+Theorem C12_conforming_terminates : forall sm s0 rqa rqb k conv,
+  0 < c_segmax k ->
+  forall ls s, crun sm s0 rqa rqb k conv (cinit sm s0) ls = Some s ->
+  N.of_nat (length ls) <= wsum 14 (projR sm RClient s0 conv) + wsum 14 (projR sm RServer s0 conv) + 10.
+Proof. exact terminates. Qed.
+Print Assumptions C12_conforming_terminates.
+(* the bound for the chain-sync example: 6 messages, 72 bytes *)
+Example C12_conforming_bound :
+  wsum 14 (projR sm_chainsync_ntn RClient 1 cs_conv) + wsum 14 (projR sm_chainsync_ntn RServer 1 cs_conv) + 10 = 310
+  /\ length cs_sched = 74%nat /\ 0 < c_segmax consts_gen.
 Proof. vm_compute. repeat split; reflexivity. Qed.
